@@ -88,12 +88,12 @@ Print Assumptions C17_sctp_sender_shift.
    with every SSN shifted by delta, delivers exactly the same messages and sends exactly the
    same SACKs at every step; its state is the unshifted one with the SSNs shifted.  Taking
    x + delta just below 2^16: a stream whose SSNs wrap behaves like one that starts at 0. *)
-Module SS := AV.Proof.SctpSsnShiftP.
+Module SN := AV.Proof.SctpSsnShiftP.
 Theorem C17_sctp_ssn_shift : forall e base x ids es,
-  in16 x -> Forall (SS.ev_ok ids) es ->
-  rrun (SS.rinit_ssn base (SS.sh16 e x) ids) (map (SS.shev e) es) =
-  (SS.shs e (fst (rrun (SS.rinit_ssn base x ids) es)), snd (rrun (SS.rinit_ssn base x ids) es)).
-Proof. exact SS.ssn_origin_independent. Qed.
+  in16 x -> Forall (SN.ev_ok ids) es ->
+  rrun (SN.rinit_ssn base (SN.sh16 e x) ids) (map (SN.shev e) es) =
+  (SN.shs e (fst (rrun (SN.rinit_ssn base x ids) es)), snd (rrun (SN.rinit_ssn base x ids) es)).
+Proof. exact SN.ssn_origin_independent. Qed.
 Print Assumptions C17_sctp_ssn_shift.
 
 (* 3. Jitter buffer: shifting every RTP sequence number by any delta (mod 2^16) yields
